@@ -91,6 +91,14 @@ def scenario(run, rng, origin, chain, final_mode, pv, hook_log):
     # outgoing listener that raises stands guard over them
     queue_before_fault = origin in ('early-listener', 'listener') and \
         rng.random() < 0.5
+    disconnect_before_fault = origin in ('early-listener', 'listener') and \
+        not queue_before_fault and rng.random() < 0.5
+    if disconnect_before_fault:
+        # (transport-flavoured exception types included: what matters is who
+        # raised, not what)
+        fault_type = rng.choice((fault_type, OSError, EOFError, ValueError,
+                                 FileNotFoundError))
+        run.count('faults_after_the_listener_disconnected')
 
     def handler(io):
         state['accepted'] += 1
@@ -247,10 +255,24 @@ def scenario(run, rng, origin, chain, final_mode, pv, hook_log):
             # (the keyword is left out when it has its default value)
             kw_e = {'early': h['early']} if h['early'] or \
                 rng.random() < 0.3 else {}
+            # the filter may be spelled like the argument of isinstance() /
+            # an except clause: classes, a tuple of classes, nested tuples
+            types_arg = tuple(h['types'])
+            if len(types_arg) >= 1:
+                spelling = rng.choice(('flat', 'flat', 'one-tuple', 'nested',
+                                       'mixed'))
+                if spelling == 'one-tuple':
+                    types_arg = (tuple(types_arg),)
+                elif spelling == 'nested':
+                    types_arg = ((tuple(types_arg),),)
+                elif spelling == 'mixed' and len(types_arg) >= 2:
+                    types_arg = (types_arg[0], tuple(types_arg[1:]))
+                if spelling != 'flat':
+                    run.count('handler_filters_given_as_tuples')
             if rng.random() < 0.5:
-                conn.register_exception_handler(fn, *h['types'], **kw_e)
+                conn.register_exception_handler(fn, *types_arg, **kw_e)
             else:
-                conn.exception_handler(*h['types'], **kw_e)(fn)
+                conn.exception_handler(*types_arg, **kw_e)(fn)
             if h['early']:
                 effective.insert(0, h)
             else:
@@ -258,6 +280,9 @@ def scenario(run, rng, origin, chain, final_mode, pv, hook_log):
         # fault injection points on the client
         if origin in ('early-listener', 'listener'):
             def boom(packet):
+                if disconnect_before_fault:
+                    # the failing listener has already ended the session
+                    conn.disconnect()
                 if queue_before_fault:
                     for j in range(rng.randrange(1, 3)):
                         conn.write_packet(serverbound.play.ChatPacket(
